@@ -297,7 +297,7 @@ def norm_words(msg):
 
 
 def norm_site(path):
-    path = path.split("/repo/")[-1]
+    path = path.split(vlib.REPO.rstrip("/") + "/")[-1].split("/repo/")[-1]
     return re.sub(r"^/rustc/[0-9a-f]+/library/", "std:", path)
 
 
